@@ -336,6 +336,7 @@ class ConcurrentTaskSet : public TaskSetBase {
         }
         if (DISPENSO_EXPECT(canceled(), false)) {
           DISPENSO_VERIF_HOOK("ts.guard", this, 1, 2);
+          detail::releaseSkippedTask(f);
           return;
         }
         DISPENSO_VERIF_HOOK("ts.guard", this, 0, 2);
@@ -484,6 +485,7 @@ class ConcurrentTaskSet : public TaskSetBase {
         }
         if (DISPENSO_EXPECT(canceled(), false)) {
           DISPENSO_VERIF_HOOK("ts.guard", this, 1, 2);
+          detail::releaseSkippedTask(f);
           return;
         }
         DISPENSO_VERIF_HOOK("ts.guard", this, 0, 2);
